@@ -1118,4 +1118,19 @@ SideSymmetric = b"S"''', '''SideA, SideB, SideSymmetric = (bytes([c]) for c in b
     B("p-integer-mask-candidate-one-bit-short", ["C11", "C04"], [(UT, _IMASK_OLD, _IMASK_NEW.replace("(1 << num_bits) - 1", "(1 << (num_bits - 1)) - 1"))]),
     B("p-integer-mask-candidate-modulo-range", ["C11", "C04"], [(UT, _IMASK_OLD, _IMASK_NEW.replace("& ((1 << num_bits) - 1)", "% maxval"))],
       note="modulo reduction instead of masking: biased"),
+    # ---- defects seeded into the third batch of refactorings
+    B("n18-digit-helper-not-reversed", ["C13"], [(ED, "    bits.reverse()\n", "")],
+      base="seeded_neutral/N18", tests="fail", note="digit helper returns the bits least significant first"),
+    B("n19-integer-mask-one-bit-wide", ["C11", "C04"], [(UT, "    value_mask = (0x1 << num_bits) - 1\n", "    value_mask = (0x1 << num_bits)\n")],
+      base="seeded_neutral/N19", note="integer mask keeps bit num_bits instead of the low num_bits bits"),
+    B("n17-moved-transcript-swaps-ids", ["C17", "C03"], [("_transcript.py", "_digest(pw), _digest(idA), _digest(idB),", "_digest(pw), _digest(idB), _digest(idA),")],
+      base="seeded_neutral/N17", tests="fail", note="transcript function moved to its own module hashes idB before idA"),
+    B("n21-sign-on-zero-check-compares-one", ["C05"], [(ED, "    if sign and x == 0:\n", "    if sign and x == 1:\n")],
+      base="seeded_neutral/N21", note="guard-clause form of the sign-on-x=0 rejection tests the wrong value"),
+    B("n23-scalar-size-property-one-too-wide", ["C15"], [(GR, "    def scalar_size_bytes(self):\n        return size_bytes(self.q)\n", "    def scalar_size_bytes(self):\n        return size_bytes(self.q) + 1\n")],
+      base="seeded_neutral/N23", tests="fail", note="size property one byte wider than the encoding of q"),
+    B("n20-unblinding-sign-lost", ["C01"], [(SP, "                                                   -pw_scalar)\n", "                                                   pw_scalar)\n")],
+      base="seeded_neutral/N20", tests="fail", note="shared offset helper called with +pw for the unblinding"),
+    B("n24-double-uses-sum-for-G", ["C12"], [(ED, "    y2_minus_x2 = (y_squared - x_squared) % Q           # G\n", "    y2_minus_x2 = (y_squared + x_squared) % Q           # G\n")],
+      base="seeded_neutral/N24", tests="fail", note="descriptive-name doubling formula with a sign error"),
 ]
